@@ -14,6 +14,10 @@ Definition sec_of (s : image_spec) (x : list Z * shdr_spec) : sect :=
   {| s_name := fst x; s_hdr := exp_shdr s (snd x);
      s_kind := spec_kind (sh_tyname s (snd x)) (fst x) |}.
 
+(* the Segment object the property expects for entry p of the abstract image *)
+Definition seg_of (s : image_spec) (p : phdr_spec) : segm :=
+  {| g_hdr := exp_phdr s p; g_kind := spec_segment_kind (p_tyname s p) |}.
+
 (* the sections an enumeration with type filter [ty] yields *)
 Definition filtered (s : image_spec) (ty : option hval) : list (list Z * shdr_spec) :=
   match ty with
@@ -26,6 +30,10 @@ Definition exp_hans (s : image_spec) (op : hop) : hans :=
   match op with
   | HTake ty k => ASects (map (sec_of s) (firstn (Z.to_nat k) (filtered s ty)))
   | HIter ty => ASects (map (sec_of s) (filtered s ty))
+  | HSegs ty => ASegs (map (seg_of s) (match ty with
+                                      | None => i_segments s
+                                      | Some t => filter (fun p => hval_eqb (p_tyname s p) t) (i_segments s)
+                                      end))
   | HHas name => ABool (match exp_index_by_name s name with Some _ => true | None => false end)
   | HIndex name => AIndex (exp_index_by_name s name)
   | HByName name =>
